@@ -83,21 +83,23 @@ def impl_header(u, rel, impl_rx, fn_name):
     return hdr.strip() + ''.join('\n    ' + a.strip() for a in assoc)
 
 
-def emit_method(u, rel, impl_rx, name, key, prep=None, contracted=True, tags=None):
+def emit_method(u, rel, impl_rx, name, key, prep=None, contracted=True, tags=None, sig_prep=None):
     return guarded(u, key, lambda: u.get_fn(rel, name, impl=impl_rx), prep,
-                   wrap=lambda: (impl_header(u, rel, impl_rx, name), '}'), contracted=contracted, tags=tags)
+                   wrap=lambda: (impl_header(u, rel, impl_rx, name), '}'), contracted=contracted, tags=tags, sig_prep=sig_prep)
 
 
 def emit_free_fn(u, rel, name, key, prep=None, contracted=True, tags=None, outer=None):
     return guarded(u, key, lambda: u.get_fn(rel, name, outer=outer), prep, wrap=lambda: None, contracted=contracted, tags=tags)
 
 
-def guarded(u, key, getter, prep, wrap, contracted=True, tags=None):
+def guarded(u, key, getter, prep, wrap, contracted=True, tags=None, sig_prep=None):
     """Extract + rewrite + splice one item.  A lost anchor confined to this item (rewrite rule without a
     match, loop the overlay names is gone, ...) turns the item into a contract-only stub: the rest of the
     unit is still verified and this item's obligations are reported undecided."""
     try:
         f = getter()
+        if sig_prep:
+            sig_prep(f)
         if key in u.stub_items:
             u.emit_fn(f, key, wrap=wrap(), contracted=contracted, tags=tags)
             return f
@@ -114,6 +116,8 @@ def guarded(u, key, getter, prep, wrap, contracted=True, tags=None):
         if not contracted:
             raise
         f = getter()          # the signature must still be there; otherwise the whole unit is lost
+        if sig_prep:
+            sig_prep(f)
         u.stub_items[key] = 'lost anchor: %s' % e
         u.lost[key] = str(e)
         u.emit_fn(f, key, wrap=wrap(), contracted=contracted, tags=tags)
